@@ -543,6 +543,13 @@ func RootObj(info *types.Info, e ast.Expr) types.Object {
 // decomposed facts of an edge; genStmt and kill receive block nodes (statements or
 // expressions) and may be nil.
 func (f *Func) MustAt(n ast.Node, gen func(Fact) bool, genStmt func(ast.Node) bool, kill func(ast.Node) bool) bool {
+	return f.MustAtInit(n, false, gen, genStmt, kill)
+}
+
+// MustAtInit is MustAt with the fact's value at the function entry given: with
+// init=true and only a kill predicate it decides "no path from the entry to n passes a
+// killing node" (the negation of may-reach).
+func (f *Func) MustAtInit(n ast.Node, init bool, gen func(Fact) bool, genStmt func(ast.Node) bool, kill func(ast.Node) bool) bool {
 	b, idx, top, ok := f.Locate(n)
 	if !ok {
 		return false
@@ -552,7 +559,7 @@ func (f *Func) MustAt(n ast.Node, gen func(Fact) bool, genStmt func(ast.Node) bo
 	for i := range in {
 		in[i] = true // optimistic start for a greatest fixpoint
 	}
-	in[0] = false
+	in[0] = init
 	// transfer through the nodes of a block up to (not including) limit
 	through := func(blk *cfg.Block, v bool, limit int) bool {
 		for i, nd := range blk.Nodes {
